@@ -1,3 +1,170 @@
 package main
 
-func runField() {}
+// Small-window arithmetic of the scalar and base fields: an element stands for the integer v it was built from
+// (|v| <= 2^15, built by a chain of additions of One), every operation is run for real and its result projected
+// back to an integer through the table; inverses and square roots are checked through the ring identities
+// x * inv(x) = 1 and r * r = x (Q embedded), quadratic residuosity through math/big's Jacobi symbol.
+
+import (
+	"math/big"
+
+	"github.com/bronlabs/bron-crypto/pkg/base/ct"
+	"github.com/bronlabs/bron-crypto/pkg/base/curves/edwards25519"
+	"github.com/bronlabs/bron-crypto/pkg/base/curves/k256"
+	"github.com/bronlabs/bron-crypto/pkg/base/curves/p256"
+	"github.com/bronlabs/bron-crypto/pkg/base/curves/pairable/bls12381"
+	"github.com/bronlabs/bron-crypto/pkg/base/curves/pasta"
+)
+
+type felemT[F any] interface {
+	Add(F) F
+	Sub(F) F
+	Mul(F) F
+	Neg() F
+	Double() F
+	Square() F
+	TryInv() (F, error)
+	TryDiv(F) (F, error)
+	Equal(F) bool
+	IsZero() bool
+	IsOne() bool
+	Bytes() []byte
+}
+
+type ffieldT[F any] interface {
+	Zero() F
+	One() F
+	FromUint64(uint64) F
+	FromWideBytes([]byte) (F, error)
+}
+
+func sqrtVia[FP interface{ Sqrt(FP) ct.Bool }, E interface{ Fp() FP }](mk func() E) func(E) (E, bool) {
+	return func(x E) (E, bool) {
+		r := mk()
+		ok := r.Fp().Sqrt(x.Fp())
+		return r, ok == 1
+	}
+}
+
+const fieldW = 1 << 15
+
+func fieldOps[F felemT[F], FF ffieldT[F]](name string, f FF, modulus *big.Int, sqrt func(F) (F, bool)) {
+	pts := map[int]F{}
+	idx := map[string]int{}
+	put := func(v int, e F) { pts[v] = e; idx[string(e.Bytes())] = v }
+	put(0, f.Zero())
+	cur := f.Zero()
+	for v := 1; v <= fieldW; v++ {
+		cur = cur.Add(f.One())
+		put(v, cur)
+	}
+	cur = f.Zero()
+	for v := 1; v <= fieldW; v++ {
+		cur = cur.Sub(f.One())
+		put(-v, cur)
+	}
+	proj := func(e F) int {
+		if v, ok := idx[string(e.Bytes())]; ok {
+			return v
+		}
+		return sentinel
+	}
+	uintOK, negOK := true, true
+	for _, v := range []int{0, 1, 2, 3, 7, 100, 255, 256, 65, 4095, 4096, 32767, 32768} {
+		uintOK = uintOK && f.FromUint64(uint64(v)).Equal(pts[v])
+		negOK = negOK && pts[v].Neg().Equal(pts[-v])
+	}
+	emit := func(ev map[string]any) { ev["field"] = name; w.Emit(ev) }
+	emit(map[string]any{"a": "ftable", "distinct": len(idx) == 2*fieldW+1, "uintOK": uintOK, "negOK": negOK})
+	box := []int{}
+	for v := -8; v <= 8; v++ {
+		box = append(box, v)
+	}
+	box = append(box, 100, -100, 127, -127, 181, -181)
+	// operands: x from the addition chain, y through FromUint64 / Neg
+	mk := func(v int) F {
+		if v < 0 {
+			return f.FromUint64(uint64(-v)).Neg()
+		}
+		return f.FromUint64(uint64(v))
+	}
+	for _, x := range box {
+		X := pts[x]
+		emit(map[string]any{"a": "fop", "op": "neg", "x": x, "r": proj(X.Neg())})
+		emit(map[string]any{"a": "fop", "op": "dbl", "x": x, "r": proj(X.Double())})
+		emit(map[string]any{"a": "fop", "op": "sq", "x": x, "r": proj(X.Square())})
+		emit(map[string]any{"a": "fop", "op": "iszero", "x": x, "res": X.IsZero()})
+		emit(map[string]any{"a": "fop", "op": "isone", "x": x, "res": X.IsOne()})
+		inv, err := X.TryInv()
+		ev := map[string]any{"a": "fop", "op": "inv", "x": x, "ok": err == nil, "chk": sentinel}
+		if err == nil {
+			ev["chk"] = proj(X.Mul(inv))
+		}
+		emit(ev)
+		for _, y := range box {
+			Y := mk(y)
+			emit(map[string]any{"a": "fop", "op": "add", "x": x, "y": y, "r": proj(X.Add(Y))})
+			emit(map[string]any{"a": "fop", "op": "sub", "x": x, "y": y, "r": proj(X.Sub(Y))})
+			emit(map[string]any{"a": "fop", "op": "mul", "x": x, "y": y, "r": proj(X.Mul(Y))})
+			emit(map[string]any{"a": "fop", "op": "eq", "x": x, "y": y, "res": X.Equal(Y)})
+			q, err := X.TryDiv(Y)
+			ev := map[string]any{"a": "fop", "op": "div", "x": x, "y": y, "ok": err == nil, "chk": sentinel}
+			if err == nil {
+				ev["chk"] = proj(q.Mul(Y))
+			}
+			emit(ev)
+		}
+		// operands must be unchanged by all of the above
+		emit(map[string]any{"a": "fop", "op": "add", "x": x, "y": 0, "r": proj(X)})
+	}
+	if sqrt != nil {
+		for x := -60; x <= 300; x++ {
+			r, ok := sqrt(pts[x])
+			xm := new(big.Int).Mod(big.NewInt(int64(x)), modulus)
+			perfect := -1
+			if x >= 0 {
+				s := int(new(big.Int).Sqrt(big.NewInt(int64(x))).Int64())
+				if s*s == x {
+					perfect = s
+				}
+			}
+			ev := map[string]any{"a": "fop", "op": "sqrt", "x": x, "ok": ok, "isQR": big.Jacobi(xm, modulus) >= 0, "perfect": perfect, "chk": sentinel, "r": sentinel}
+			if ok {
+				ev["chk"] = proj(r.Square())
+				ev["r"] = proj(r)
+			}
+			emit(ev)
+		}
+	}
+	// wide reduction: k * modulus + v reduces to v (k = 1, v = 0: "order == 0")
+	ks := []*big.Int{big.NewInt(0), big.NewInt(1), big.NewInt(2), big.NewInt(3), new(big.Int).Lsh(big.NewInt(1), 64), new(big.Int).Sub(new(big.Int).Lsh(big.NewInt(1), 100), big.NewInt(1))}
+	for _, k := range ks {
+		for v := -3; v <= 3; v++ {
+			n := new(big.Int).Mul(k, modulus)
+			n.Add(n, big.NewInt(int64(v)))
+			if n.Sign() < 0 {
+				continue
+			}
+			e, err := f.FromWideBytes(n.Bytes())
+			r := sentinel
+			if err == nil {
+				r = proj(e)
+			}
+			emit(map[string]any{"a": "fop", "op": "wide", "x": v, "kbits": k.BitLen(), "r": r})
+		}
+	}
+}
+
+func runField() {
+	w.Emit(map[string]any{"a": "hdr", "k": kk, "w": winW, "curves": []map[string]any{}})
+	fieldOps("k256-scalar", k256.NewScalarField(), k256.NewScalarField().Order().Big(), sqrtVia(func() *k256.Scalar { return new(k256.Scalar) }))
+	fieldOps("k256-base", k256.NewBaseField(), k256.NewBaseField().Order().Big(), sqrtVia(func() *k256.BaseFieldElement { return new(k256.BaseFieldElement) }))
+	fieldOps("p256-scalar", p256.NewScalarField(), p256.NewScalarField().Order().Big(), sqrtVia(func() *p256.Scalar { return new(p256.Scalar) }))
+	fieldOps("p256-base", p256.NewBaseField(), p256.NewBaseField().Order().Big(), sqrtVia(func() *p256.BaseFieldElement { return new(p256.BaseFieldElement) }))
+	fieldOps("ed25519-scalar", edwards25519.NewScalarField(), edwards25519.NewScalarField().Order().Big(), sqrtVia(func() *edwards25519.Scalar { return new(edwards25519.Scalar) }))
+	fieldOps("ed25519-base", edwards25519.NewBaseField(), edwards25519.NewBaseField().Order().Big(), sqrtVia(func() *edwards25519.BaseFieldElement { return new(edwards25519.BaseFieldElement) }))
+	fieldOps("pasta-fp", pasta.NewPallasBaseField(), pasta.NewPallasBaseField().Order().Big(), sqrtVia(func() *pasta.FpFieldElement { return new(pasta.FpFieldElement) }))
+	fieldOps("pasta-fq", pasta.NewPallasScalarField(), pasta.NewPallasScalarField().Order().Big(), sqrtVia(func() *pasta.FqFieldElement { return new(pasta.FqFieldElement) }))
+	fieldOps("bls12381-scalar", bls12381.NewScalarField(), bls12381.NewScalarField().Order().Big(), sqrtVia(func() *bls12381.Scalar { return new(bls12381.Scalar) }))
+	fieldOps("bls12381-fp", bls12381.NewG1BaseField(), bls12381.NewG1BaseField().Order().Big(), sqrtVia(func() *bls12381.BaseFieldElementG1 { return new(bls12381.BaseFieldElementG1) }))
+}
